@@ -2,8 +2,10 @@
 // ring.PartitionRing (C12).
 //
 // TestRecord      code -> spec: runs histories of ring changes on real clients under a synctest
-//                 bubble clock and writes one ndjson event per ring version / query batch; TLC
-//                 validates the file against ShardHistory.tla (ShardHistoryTrace.tla).
+//
+//	bubble clock and writes one ndjson event per ring version / query batch; TLC
+//	validates the file against ShardHistory.tla (ShardHistoryTrace.tla).
+//
 // TestGenCases /  spec -> code cross-check of the white-box walk (ShuffleShard.tla): concretised
 // TestCompare     cases with the code's real start sequences; TLC evaluates Shard/PShard on them.
 // TestConcretise  replays a TLC counterexample of the white-box model on the real code.
@@ -12,6 +14,7 @@ package c12
 import (
 	"context"
 	"fmt"
+	"math"
 	"math/rand"
 	"os"
 	"sort"
@@ -25,6 +28,7 @@ import (
 	"github.com/go-kit/log"
 	"github.com/grafana/dskit/kv"
 	"github.com/grafana/dskit/ring"
+	shardUtil "github.com/grafana/dskit/ring/shard"
 	"github.com/grafana/dskit/services"
 )
 
@@ -87,6 +91,7 @@ type inst struct {
 	ro     bool
 	reg    int64 // unix seconds
 	rots   int64
+	state  ring.InstanceState // not part of the specification's view: a shard does not depend on it
 }
 
 type instWorld struct {
@@ -127,7 +132,7 @@ func (w *instWorld) desc(heartbeat time.Time) *ring.Desc {
 		in := w.insts[id]
 		toks := append([]uint32(nil), in.tokens...)
 		d.Ingesters[instName(id)] = ring.InstanceDesc{
-			Id: instName(id), Addr: instName(id), Timestamp: heartbeat.Unix(), State: ring.ACTIVE, Tokens: toks,
+			Id: instName(id), Addr: instName(id), Timestamp: heartbeat.Unix(), State: in.state, Tokens: toks,
 			Zone: zoneName(in.zone), RegisteredTimestamp: in.reg, ReadOnly: in.ro, ReadOnlyUpdatedTimestamp: in.rots,
 		}
 	}
@@ -172,6 +177,19 @@ func freshTokens(rnd *rand.Rand, n int, used map[uint32]bool, tight bool) []uint
 	return out
 }
 
+// randState: mostly ACTIVE; the shard of an identifier does not depend on instance states.
+func randState(rnd *rand.Rand) ring.InstanceState {
+	switch rnd.Intn(10) {
+	case 0:
+		return ring.LEAVING
+	case 1:
+		return ring.JOINING
+	case 2:
+		return ring.PENDING
+	}
+	return ring.ACTIVE
+}
+
 func ringCfg(za bool, cacheDisabled bool) ring.Config {
 	return ring.Config{ReplicationFactor: 1, ZoneAwarenessEnabled: za, HeartbeatTimeout: 10000 * time.Hour, SubringCacheDisabled: cacheDisabled}
 }
@@ -209,6 +227,12 @@ type evLookback struct {
 	L    int    `json:"L"`
 	S    []int  `json:"S"`
 }
+type evSub struct {
+	Mem  []int  `json:"mem"` // members of the subring the shard was taken from
+	ID   string `json:"id"`
+	Size int    `json:"size"`
+	S    []int  `json:"S"`
+}
 type event struct {
 	E         string       `json:"e"`
 	Kind      string       `json:"kind,omitempty"`
@@ -220,6 +244,7 @@ type event struct {
 	Late      int          `json:"late"` // 0: asked at now+1/4, before the change of that second; 1: right after the change stamped now
 	Shards    []evShard    `json:"shards"`
 	Lookbacks []evLookback `json:"lookbacks"`
+	Subs      []evSub      `json:"subs,omitempty"` // "sq" events
 }
 
 // concRing is the concrete content of one logged ring version (side file $VERIF_TRACE_CONCRETE,
@@ -254,7 +279,8 @@ type recorder struct {
 	versions int
 	fatal    string
 	// counters for evidence
-	extended, exhausted, readonly int
+	extended, exhausted, readonly             int
+	subq, subProper, multi, rejoin, stateOnly int
 }
 
 func (r *recorder) sec(t time.Time) int64 { return int64(t.Sub(r.epoch) / time.Second) }
@@ -278,8 +304,21 @@ func (r *recorder) sleepUntil(d time.Duration) {
 	}
 }
 
+// hugeSize is what the trace shows for a request of math.MaxInt instances (TLC integers are 32-bit and
+// every size beyond 2n + zones is the same request to the specification).
+const hugeSize = 1000000
+
+func codeSize(size int) int {
+	if size == hugeSize {
+		return math.MaxInt
+	}
+	return size
+}
+
+func memKey(m []int) string { return fmt.Sprint(m) }
+
 func sizesFor(n, zones, maxSize int, rnd *rand.Rand) []int {
-	set := map[int]bool{}
+	set := map[int]bool{hugeSize: true}
 	if maxSize > 0 {
 		for s := 0; s <= maxSize; s++ {
 			set[s] = true
@@ -355,6 +394,7 @@ func (r *recorder) instHistory(p instPlan) {
 		if rnd.Intn(12) == 0 {
 			in.reg = 0 // registration time unknown (old lifecycler): never "inside the window"
 		}
+		in.state = randState(rnd)
 		w.insts[in.id] = in
 		w.nextID++
 	}
@@ -421,10 +461,38 @@ func (r *recorder) instHistory(p instPlan) {
 							r.res.Mismatch(abs.Mismatch{Sig: "inst:panic ShuffleShard", Case: map[string]any{"tenant": tn, "size": size}, Got: fmt.Sprint(x), Want: "no panic"})
 						}
 					}()
-					sub := rr.ShuffleShard(tn, size)
+					sub := rr.ShuffleShard(tn, codeSize(size))
 					m, err := membersOf(sub, ids)
 					if err != nil {
 						r.res.Mismatch(abs.Mismatch{Sig: "inst:subring inconsistent", Case: map[string]any{"tenant": tn, "size": size}, Got: err.Error(), Want: "InstancesCount = members"})
+					}
+					// two sites that must agree: the exported size arithmetic and the shard actually built
+					// (comparable when no zone runs out of eligible instances)
+					if size > 0 && size != hugeSize {
+						nz, minElig := 1, 0
+						if p.za {
+							nz = len(w.zones())
+						}
+						elig := map[int]int{}
+						for _, id := range ids {
+							if in := w.insts[id]; !in.ro {
+								if p.za {
+									elig[in.zone]++
+								} else {
+									elig[0]++
+								}
+							}
+						}
+						minElig = len(ids)
+						if len(elig) < nz {
+							minElig = 0
+						}
+						for _, c := range elig {
+							minElig = min(minElig, c)
+						}
+						if want := shardUtil.ShuffleShardExpectedInstances(size, nz); shardUtil.ShuffleShardExpectedInstancesPerZone(size, nz) <= minElig && want != len(m) {
+							r.res.Mismatch(abs.Mismatch{Sig: "inst:ShuffleShardExpectedInstances disagrees with ShuffleShard", Case: map[string]any{"tenant": tn, "size": size, "zones": nz}, Got: len(m), Want: want})
+						}
 					}
 					ev.Shards = append(ev.Shards, evShard{ID: tn, Size: size, S: m})
 					plain[fmt.Sprintf("%s/%d", tn, size)] = len(m)
@@ -445,7 +513,7 @@ func (r *recorder) instHistory(p instPlan) {
 								r.res.Mismatch(abs.Mismatch{Sig: "inst:panic ShuffleShardWithLookback", Case: map[string]any{"tenant": tn, "size": size, "L": L}, Got: fmt.Sprint(x), Want: "no panic"})
 							}
 						}()
-						sub := rr.ShuffleShardWithLookback(tn, size, time.Duration(L)*time.Second, now)
+						sub := rr.ShuffleShardWithLookback(tn, codeSize(size), time.Duration(L)*time.Second, now)
 						m, err := membersOf(sub, ids)
 						if err != nil {
 							r.res.Mismatch(abs.Mismatch{Sig: "inst:subring inconsistent", Case: map[string]any{"tenant": tn, "size": size, "L": L}, Got: err.Error(), Want: "InstancesCount = members"})
@@ -461,9 +529,128 @@ func (r *recorder) instHistory(p instPlan) {
 		}
 		r.corruptMaybe(&ev)
 		r.emit(ev)
+		if client != 1 || late != 0 || len(lookbacks) == 0 {
+			return
+		}
+		thorough := abs.Tier() == "thorough"
+		// ---- shards of subrings of this version (SubQuery of ShardHistory.tla)
+		type parent struct {
+			rr  ring.ReadRing
+			mem []int
+		}
+		var parents []parent
+		seen := map[string]bool{}
+		add := func(rr ring.ReadRing) {
+			m, err := membersOf(rr, ids)
+			if err != nil || seen[memKey(m)] {
+				return
+			}
+			seen[memKey(m)] = true
+			parents = append(parents, parent{rr, m})
+		}
+		func() {
+			defer func() {
+				if x := recover(); x != nil {
+					r.res.Mismatch(abs.Mismatch{Sig: "inst:panic building a subring", Case: map[string]any{"tenant": tenants[0]}, Got: fmt.Sprint(x), Want: "no panic"})
+				}
+			}()
+			add(rr.GetSubringForOperationStates(ring.WriteNoExtend)) // the ACTIVE instances
+			for _, size := range sizes {                             // consecutive sizes: subrings one instance apart
+				if size > 0 {
+					add(rr.ShuffleShard(tenants[0], codeSize(size)))
+				}
+			}
+			add(rr.ShuffleShardWithLookback(tenants[0], 2, time.Duration(lookbacks[0])*time.Second, now)) // may hold read-only members
+		}()
+		maxParents := 4
+		if thorough {
+			maxParents = 6
+		}
+		if len(parents) > maxParents {
+			off := 1 + rnd.Intn(len(parents)-maxParents+1) // a window of consecutive shards, always with the state subring
+			parents = append(parents[:1:1], parents[off:off+maxParents-1]...)
+		}
+		sev := event{E: "sq", Now: &nowSec, Client: client, Late: late}
+		fev := event{E: "sq", Now: &nowSec, Client: 3, Late: late}
+		subTenants := []string{tenants[len(tenants)-1]}
+		if thorough {
+			subTenants = append(subTenants, "sub-"+tenants[0])
+		}
+		for pi, pa := range parents {
+			var subSizes []int
+			if len(pa.mem) <= 7 {
+				for s := 0; s <= len(pa.mem)+1; s++ {
+					subSizes = append(subSizes, s)
+				}
+			} else {
+				subSizes = []int{0, 1, len(w.zones()) + 1, len(pa.mem) / 2, len(pa.mem) - 1, len(pa.mem), hugeSize}
+			}
+			// an independently built ring that holds exactly the members of the subring
+			var fresh *ring.Ring
+			var stopFresh func()
+			if pi == len(parents)-1 || (thorough && pi == 1) {
+				d := w.desc(r.epoch)
+				in := map[string]bool{}
+				for _, id := range pa.mem {
+					in[instName(id)] = true
+				}
+				for name := range d.Ingesters {
+					if !in[name] {
+						delete(d.Ingesters, name)
+					}
+				}
+				if f, stop, err := abs.NewRing(d, ringCfg(p.za, true)); err == nil {
+					fresh, stopFresh = f, stop
+				}
+			}
+			for _, tn := range subTenants {
+				for _, size := range subSizes {
+					func() {
+						defer func() {
+							if x := recover(); x != nil {
+								r.res.Mismatch(abs.Mismatch{Sig: "inst:panic ShuffleShard on a subring", Case: map[string]any{"tenant": tn, "size": size, "subring": pa.mem}, Got: fmt.Sprint(x), Want: "no panic"})
+							}
+						}()
+						m, err := membersOf(pa.rr.ShuffleShard(tn, codeSize(size)), ids)
+						if err != nil {
+							r.res.Mismatch(abs.Mismatch{Sig: "inst:subring inconsistent", Case: map[string]any{"tenant": tn, "size": size, "subring": pa.mem}, Got: err.Error(), Want: "InstancesCount = members"})
+						}
+						sev.Subs = append(sev.Subs, evSub{Mem: pa.mem, ID: tn, Size: size, S: m})
+						r.subq++
+						if len(m) > 0 && len(m) < len(pa.mem) {
+							r.subProper++
+						}
+						if fresh != nil {
+							fm, _ := membersOf(fresh.ShuffleShard(tn, codeSize(size)), ids)
+							fev.Subs = append(fev.Subs, evSub{Mem: pa.mem, ID: tn, Size: size, S: fm})
+							r.subq++
+						}
+					}()
+				}
+			}
+			if stopFresh != nil {
+				stopFresh()
+			}
+		}
+		if r.corrupt == "sub-drop" && r.nq >= 40 {
+			for i := range sev.Subs {
+				if len(sev.Subs[i].S) > 0 && sev.Subs[i].Size > 0 {
+					sev.Subs[i].S = sev.Subs[i].S[1:]
+					r.corrupt = ""
+					break
+				}
+			}
+		}
+		if len(sev.Subs) > 0 {
+			r.emit(sev)
+		}
+		if len(fev.Subs) > 0 {
+			r.emit(fev)
+		}
 	}
 
 	lastChange := int64(0)
+	var departed []*inst
 	for step := 0; step <= p.events; step++ {
 		T := int64(startSec + step)
 		// ---- T + 1/4: queries on the current content
@@ -498,44 +685,80 @@ func (r *recorder) instHistory(p instPlan) {
 		r.sleepUntil(time.Duration(T)*time.Second + 500*time.Millisecond)
 		stampAbs := time.Now().Unix()
 		changed := false
-		ids := w.ids()
-		switch k := rnd.Intn(10); {
-		case k < 3: // join
-			z := 0
-			zs := w.zones()
-			if len(zs) < 4 && rnd.Intn(6) == 0 {
-				z = zs[len(zs)-1] + 1 // a new zone appears
-			} else {
-				z = zs[rnd.Intn(len(zs))]
-			}
-			ntok := p.tokens
-			if rnd.Intn(4) == 0 {
-				ntok = 1 + rnd.Intn(p.tokens)
-			}
-			in := &inst{id: w.nextID, zone: z, tokens: freshTokens(rnd, ntok, w.usedTokens(), p.tight), reg: stampAbs}
-			w.nextID++
-			w.insts[in.id] = in
-			changed = true
-		case k < 5: // leave
-			if len(ids) > 1 {
-				delete(w.insts, ids[rnd.Intn(len(ids))])
-				changed = true
-			}
-		case k < 9: // read-only toggle; half of the time of an instance that is read-only now (back to read-write)
-			in := w.insts[ids[rnd.Intn(len(ids))]]
-			if rnd.Intn(2) == 0 {
-				for _, id := range ids {
-					if w.insts[id].ro {
-						in = w.insts[id]
-						break
+		pushOnly := false
+		change := func() {
+			ids := w.ids()
+			switch k := rnd.Intn(10); {
+			case k < 3: // join
+				// an instance that left earlier registers again under its identifier, with its tokens and zone
+				if len(departed) > 0 && rnd.Intn(3) == 0 {
+					in := departed[len(departed)-1]
+					used := w.usedTokens()
+					clash := false
+					for _, t := range in.tokens {
+						clash = clash || used[t]
+					}
+					departed = departed[:len(departed)-1]
+					if !clash {
+						in.reg, in.ro, in.rots, in.state = stampAbs, false, 0, randState(rnd)
+						w.insts[in.id] = in
+						changed = true
+						r.rejoin++
+						return
 					}
 				}
+				z := 0
+				zs := w.zones()
+				if len(zs) < 4 && rnd.Intn(6) == 0 {
+					z = zs[len(zs)-1] + 1 // a new zone appears
+				} else {
+					z = zs[rnd.Intn(len(zs))]
+				}
+				ntok := p.tokens
+				if rnd.Intn(4) == 0 {
+					ntok = 1 + rnd.Intn(p.tokens)
+				}
+				in := &inst{id: w.nextID, zone: z, tokens: freshTokens(rnd, ntok, w.usedTokens(), p.tight), reg: stampAbs, state: randState(rnd)}
+				w.nextID++
+				w.insts[in.id] = in
+				changed = true
+			case k < 5: // leave
+				if len(ids) > 1 {
+					x := ids[rnd.Intn(len(ids))]
+					departed = append(departed, w.insts[x])
+					delete(w.insts, x)
+					changed = true
+				}
+			case k < 9: // read-only toggle; half of the time of an instance that is read-only now (back to read-write)
+				in := w.insts[ids[rnd.Intn(len(ids))]]
+				if rnd.Intn(2) == 0 {
+					for _, id := range ids {
+						if w.insts[id].ro {
+							in = w.insts[id]
+							break
+						}
+					}
+				}
+				in.ro = !in.ro
+				in.rots = stampAbs
+				changed = true
+				r.readonly++
+			default: // the content of the specification's view stays: only a state and the heartbeats change
+				w.insts[ids[rnd.Intn(len(ids))]].state = randState(rnd)
+				pushOnly = true
 			}
-			in.ro = !in.ro
-			in.rots = stampAbs
-			changed = true
-			r.readonly++
-		default: // a quiet second
+		}
+		change()
+		if changed && rnd.Intn(5) == 0 { // two changes in the same second, one ring version
+			change()
+			r.multi++
+		}
+		if pushOnly && !changed {
+			// no new version for the specification: the watching client takes the "only states and timestamps
+			// changed" path and keeps its cached subrings; every later answer must equal the earlier ones
+			store.Push(w.desc(time.Now()))
+			synctest.Wait()
+			r.stateOnly++
 		}
 		if changed {
 			lastChange = T
@@ -668,13 +891,13 @@ func (r *recorder) partHistory(p partPlan) {
 							r.res.Mismatch(abs.Mismatch{Sig: "part:panic ShuffleShard", Case: map[string]any{"tenant": tn, "size": size}, Got: fmt.Sprint(x), Want: "no panic"})
 						}
 					}()
-					sub, err := pr.ShuffleShard(tn, size)
+					sub, err := pr.ShuffleShard(tn, codeSize(size))
 					if err != nil {
 						r.res.Mismatch(abs.Mismatch{Sig: "part:error ShuffleShard", Case: map[string]any{"tenant": tn, "size": size}, Got: err.Error(), Want: "a subring"})
 						return
 					}
 					m := toInts(sub.PartitionIDs())
-					if want := pr.ShuffleShardSize(size); want != len(m) {
+					if want := pr.ShuffleShardSize(codeSize(size)); want != len(m) {
 						r.res.Mismatch(abs.Mismatch{Sig: "part:ShuffleShardSize disagrees with ShuffleShard", Case: map[string]any{"tenant": tn, "size": size}, Got: len(m), Want: want})
 					}
 					ev.Shards = append(ev.Shards, evShard{ID: tn, Size: size, S: m})
@@ -693,7 +916,7 @@ func (r *recorder) partHistory(p partPlan) {
 								r.res.Mismatch(abs.Mismatch{Sig: "part:panic ShuffleShardWithLookback", Case: map[string]any{"tenant": tn, "size": size, "L": L}, Got: fmt.Sprint(x), Want: "no panic"})
 							}
 						}()
-						sub, err := pr.ShuffleShardWithLookback(tn, size, time.Duration(L)*time.Second, now)
+						sub, err := pr.ShuffleShardWithLookback(tn, codeSize(size), time.Duration(L)*time.Second, now)
 						if err != nil {
 							r.res.Mismatch(abs.Mismatch{Sig: "part:error ShuffleShardWithLookback", Case: map[string]any{"tenant": tn, "size": size, "L": L}, Got: err.Error(), Want: "a subring"})
 							return
@@ -710,6 +933,94 @@ func (r *recorder) partHistory(p partPlan) {
 		}
 		r.corruptMaybe(&ev)
 		r.emit(ev)
+		if client != 1 || late != 0 || len(lookbacks) == 0 {
+			return
+		}
+		// ---- shards of subrings of this version (SubQuery of ShardHistory.tla)
+		type parent struct {
+			pr  *ring.PartitionRing
+			mem []int
+		}
+		var parents []parent
+		seen := map[string]bool{}
+		add := func(sub *ring.PartitionRing, err error) {
+			if err != nil || sub == nil {
+				return
+			}
+			m := toInts(sub.PartitionIDs())
+			if seen[memKey(m)] {
+				return
+			}
+			seen[memKey(m)] = true
+			parents = append(parents, parent{sub, m})
+		}
+		add(pr.ShuffleShardWithLookback(tenants[0], 2, time.Duration(lookbacks[len(lookbacks)-1])*time.Second, now)) // may hold inactive partitions
+		for _, size := range sizes {
+			if size > 0 {
+				add(pr.ShuffleShard(tenants[0], codeSize(size)))
+			}
+		}
+		maxParents := 4
+		if abs.Tier() == "thorough" {
+			maxParents = 6
+		}
+		if len(parents) > maxParents {
+			off := 1 + rnd.Intn(len(parents)-maxParents+1)
+			parents = append(parents[:1:1], parents[off:off+maxParents-1]...)
+		}
+		sev := event{E: "sq", Now: &nowSec, Client: client, Late: late}
+		fev := event{E: "sq", Now: &nowSec, Client: 3, Late: late}
+		tn := tenants[len(tenants)-1]
+		for pi, pa := range parents {
+			var subSizes []int
+			if len(pa.mem) <= 7 {
+				for s := 0; s <= len(pa.mem)+1; s++ {
+					subSizes = append(subSizes, s)
+				}
+			} else {
+				subSizes = []int{0, 1, 2, len(pa.mem) / 2, len(pa.mem) - 1, len(pa.mem), hugeSize}
+			}
+			var fresh *ring.PartitionRing
+			if pi == len(parents)-1 {
+				sel := map[int]*part{}
+				for _, id := range pa.mem {
+					sel[id] = ps[id]
+				}
+				fresh, _ = ring.NewPartitionRing(partDesc(sel))
+			}
+			for _, size := range subSizes {
+				func() {
+					defer func() {
+						if x := recover(); x != nil {
+							r.res.Mismatch(abs.Mismatch{Sig: "part:panic ShuffleShard on a subring", Case: map[string]any{"tenant": tn, "size": size, "subring": pa.mem}, Got: fmt.Sprint(x), Want: "no panic"})
+						}
+					}()
+					sub, err := pa.pr.ShuffleShard(tn, codeSize(size))
+					if err != nil {
+						r.res.Mismatch(abs.Mismatch{Sig: "part:error ShuffleShard on a subring", Case: map[string]any{"tenant": tn, "size": size, "subring": pa.mem}, Got: err.Error(), Want: "a subring"})
+						return
+					}
+					m := toInts(sub.PartitionIDs())
+					sev.Subs = append(sev.Subs, evSub{Mem: pa.mem, ID: tn, Size: size, S: m})
+					r.subq++
+					if len(m) > 0 && len(m) < len(pa.mem) {
+						r.subProper++
+					}
+					if fresh != nil {
+						if fs, err := fresh.ShuffleShard(tn, codeSize(size)); err == nil {
+							fev.Subs = append(fev.Subs, evSub{Mem: pa.mem, ID: tn, Size: size, S: toInts(fs.PartitionIDs())})
+							r.subq++
+						}
+					}
+				}()
+			}
+		}
+		if len(sev.Subs) > 0 {
+			r.emit(sev)
+		}
+		if len(fev.Subs) > 0 {
+			r.emit(fev)
+		}
 	}
 
 	build := func() *ring.PartitionRing {
@@ -959,6 +1270,11 @@ func TestRecord(t *testing.T) {
 	res.AddExtra("c12_queries", rec.nq)
 	res.AddExtra("c12_ring_versions", rec.versions)
 	res.AddExtra("c12_lookback_answers_larger_than_shard", rec.extended)
+	res.AddExtra("c12_subring_answers", rec.subq)
+	res.AddExtra("c12_subring_proper_nonempty_shards", rec.subProper)
+	res.AddExtra("c12_versions_with_two_changes", rec.multi)
+	res.AddExtra("c12_reregistrations", rec.rejoin)
+	res.AddExtra("c12_state_only_updates", rec.stateOnly)
 	res.AddExtra("c12_trace_events", w.N)
 	res.Write(t)
 }
